@@ -192,7 +192,10 @@ func run(c Case) {
 		dst := newTarget(c.Target)
 		var err error
 		var text string
-		if c.Kind == "override-simple" {
+		if c.Kind == "override-simple" && len(c.Keys) == 4 {
+			// three occurrences: Keys[0..2] name the field Keys[3]
+			text = fmt.Sprintf("%s=first %s=middle %s=second", c.Keys[0], c.Keys[1], c.Keys[2])
+		} else if c.Kind == "override-simple" {
 			text = fmt.Sprintf("%s=first %s=second", c.Keys[0], c.Keys[1])
 		} else {
 			text = fmt.Sprintf("ase://u:p@h:1/?%s=first&%s=middle&%s=second", c.Keys[0], c.Keys[0], c.Keys[1])
@@ -209,9 +212,10 @@ func run(c Case) {
 			h.Violate("C17|"+c.Kind+"|fails", fmt.Sprintf("%s: %q: panic=%v %s err=%v", c.Target, text, pan, msg, err), c)
 			return
 		}
-		got := dsn.TagToField(dst, dsn.OnlyJSON)[c.Keys[2]].String()
+		jk := c.Keys[len(c.Keys)-1]
+		got := dsn.TagToField(dst, dsn.OnlyJSON)[jk].String()
 		if got != "second" {
-			h.Violate("C17|"+c.Kind+"|earlier-wins", fmt.Sprintf("%s: %q: field %s = %q, the later occurrence must win", c.Target, text, c.Keys[2], got), c)
+			h.Violate("C17|"+c.Kind+"|earlier-wins", fmt.Sprintf("%s: %q: field %s = %q, the later occurrence must win", c.Target, text, jk, got), c)
 		}
 		h.Outcome("override-ok")
 	case "unknown":
@@ -413,6 +417,11 @@ func main() {
 						}
 						h.Section("override", 1)
 						nOverride++
+						// three occurrences (K A K, A K K, K K A, ...): still the last one wins
+						for _, n3 := range names {
+							run(Case{Kind: "override-simple", Target: tg, Keys: []string{n1, n2, n3, jk}})
+							h.Section("override-3", 1)
+						}
 					}
 				}
 			}
